@@ -2,6 +2,7 @@ package schemagen
 
 import (
 	"fmt"
+	"regexp"
 	"strings"
 
 	"gorm.io/gorm/schema"
@@ -66,7 +67,7 @@ func Evolve(t *rapid.T, v1 *StructSpec, o GenOptions) (*StructSpec, []string) {
 		for _, f := range s.Fields {
 			if f.Embedded != nil {
 				collect(f.Embedded, twice || shared[f.Embedded] > 1)
-			} else if !f.Marker {
+			} else if !f.Marker && !f.Shadowed {
 				leaves = append(leaves, f)
 				if twice {
 					f.CheckName = "-" // marks: explicit names not allowed (declared twice)
@@ -102,6 +103,13 @@ func Evolve(t *rapid.T, v1 *StructSpec, o GenOptions) (*StructSpec, []string) {
 		}
 	}
 
+	// an index named exactly like a column that an earlier-declared index already covers
+	if rapid.IntRange(0, 2).Draw(t, "v2.colindex") == 0 {
+		if a := AddColumnNamedIndex(t, v2, "v2.colindex"); a != "" {
+			added = append(added, a)
+		}
+	}
+
 	// new fields
 	nnew := rapid.IntRange(0, 3).Draw(t, "v2.new")
 	if nnew == 0 && len(added) == 0 {
@@ -128,9 +136,66 @@ func (m *Model) ExpectedIndexes(table string) []string {
 	set := map[string]bool{}
 	var out []string
 	for _, l := range m.Leaves {
-		idx := l.Spec.Index
+		for _, idx := range strings.Split(l.Spec.Index, ";") {
+			if name := indexName(table, l, idx); name != "" && !set[name] {
+				set[name] = true
+				out = append(out, name)
+			}
+		}
+	}
+	return out
+}
+
+var plainColumn = regexp.MustCompile(`^[a-z][a-z0-9_]*$`)
+
+// AddColumnNamedIndex gives a top-level field a further index whose explicit
+// name is the column name of a field that an index declared earlier already
+// covers (the same field or one before it): `index;index:code`. Lower-case
+// column names only: gorm's LookIndex also resolves Go field names, so an
+// index named like a (capitalised) field name is ambiguous by design.
+func AddColumnNamedIndex(t *rapid.T, s *StructSpec, label string) string {
+	m := Build(s)
+	type cand struct {
+		pos int
+		col string
+	}
+	var srcs []cand
+	taken := map[string]bool{}
+	for _, n := range m.ExpectedIndexes("t") {
+		taken[n] = true
+	}
+	for _, l := range m.Leaves {
+		if len(l.Path) == 1 && l.Spec.Index != "" && plainColumn.MatchString(l.DBName) && !taken[l.DBName] {
+			srcs = append(srcs, cand{l.Path[0], l.DBName})
+		}
+	}
+	if len(srcs) == 0 {
+		return ""
+	}
+	src := rapid.SampledFrom(srcs).Draw(t, label+".col")
+	var targets []*FieldSpec
+	for i := src.pos; i < len(s.Fields); i++ {
+		f := s.Fields[i]
+		if f.Embedded == nil && !f.Marker && (f.Kind.Family != FOpaque || f.Kind.Group == "custom") {
+			targets = append(targets, f)
+		}
+	}
+	if len(targets) == 0 {
+		return ""
+	}
+	f := rapid.SampledFrom(targets).Draw(t, label+".on")
+	if f.Index == "" {
+		f.Index = "index:" + src.col
+	} else {
+		f.Index += ";index:" + src.col
+	}
+	return "index named like column " + src.col + " on " + f.Name
+}
+
+func indexName(table string, l *Leaf, idx string) string {
+	{
 		if idx == "" {
-			continue
+			return ""
 		}
 		name := ""
 		switch {
@@ -141,12 +206,8 @@ func (m *Model) ExpectedIndexes(table string) []string {
 		case strings.HasPrefix(idx, "index:"):
 			name = strings.TrimPrefix(idx, "index:")
 		}
-		if name != "" && !set[name] {
-			set[name] = true
-			out = append(out, name)
-		}
+		return name
 	}
-	return out
 }
 
 // ExpectedConstraints lists the check and unique constraint names the tags declare.
